@@ -447,7 +447,7 @@ class DatasetProcessor:
             low_ext = outer_ext.lower()
             if low_ext in ['.gz', '.gzip', '.bgz']:
                 try:
-                    self.reference_record_dict = Fasta(self.args.reference, indexname=args.fai_file_name)
+                    self.reference_record_dict = self.load_reference(self.args.reference, args.fai_file_name)
                 except UnsupportedCompressionFormat:
                     gunzipped_reference = os.path.join(args.output, ref_name)
                     if not os.path.exists(gunzipped_reference) or not self.args.resume:
@@ -457,11 +457,25 @@ class DatasetProcessor:
                         os.replace(gunzipped_reference + ".tmp", gunzipped_reference)
                         logger.info("Loading uncompressed reference from " + gunzipped_reference)
                     self.args.reference = gunzipped_reference
-                    self.reference_record_dict = Fasta(self.args.reference, indexname=args.fai_file_name)
+                    self.reference_record_dict = self.load_reference(self.args.reference, args.fai_file_name)
             else:
-                self.reference_record_dict = Fasta(self.args.reference, indexname=args.fai_file_name)
+                self.reference_record_dict = self.load_reference(self.args.reference, args.fai_file_name)
         else:
             self.reference_record_dict = None
+
+    @staticmethod
+    def load_reference(reference, fai_file_name):
+        if not os.path.exists(fai_file_name):
+            # the index is built under a temporary name: an interrupted run must not leave a truncated index behind,
+            # pyfaidx would silently load the sequences listed in it
+            tmp_fai_file_name = fai_file_name + "." + str(os.getpid()) + ".tmp"
+            try:
+                Fasta(reference, indexname=tmp_fai_file_name).close()
+                os.replace(tmp_fai_file_name, fai_file_name)
+            finally:
+                if os.path.exists(tmp_fai_file_name):
+                    os.remove(tmp_fai_file_name)
+        return Fasta(reference, indexname=fai_file_name)
 
     def __del__(self):
         if not self.args.keep_tmp and self.args.gunzipped_reference:
